@@ -1,39 +1,54 @@
 #!/usr/bin/env python3
-"""MANIFEST.setup_cmd: build everything the checks need from files on disk only
-(repo with hooks on, the whole Coq development, extracted models, harnesses)."""
+"""MANIFEST.setup_cmd: build what the registered checks need from files on disk only
+(repo with hooks on, translators, the Coq targets of each registered check, extracted models,
+harnesses). A part that fails here is reported by the corresponding check at run time; only a
+failing repo build makes setup fail."""
 import glob
+import json
 import os
+import re
 import sys
 
 sys.path.insert(0, os.path.dirname(os.path.abspath(__file__)))
 import vlib
 
 vlib.log("building /repo with -D%s ..." % vlib.GUARD)
-vlib.log("  %.0fs" % vlib.ensure_repo_build())
-# translators first (Gen_*.v are not committed)
+try:
+    vlib.log("  %.0fs" % vlib.ensure_repo_build())
+except vlib.BuildError as e:
+    vlib.log(str(e)[-3000:])
+    sys.exit(1)
+m = json.load(open(os.path.join(vlib.VERIF, "MANIFEST.json")))
+ids = [c["property_id"] for c in m["checks"]]
 for t in sorted(glob.glob(os.path.join(vlib.VERIF, "tools", "translate", "*.py"))):
-    rc, out, dt = vlib.sh([sys.executable, t])
-    vlib.log("translator %s rc=%s" % (os.path.basename(t), rc))
+    rc, out, dt = vlib.sh([sys.executable, t], timeout=900)
+    vlib.log("translator %s rc=%s %.0fs" % (os.path.basename(t), rc, dt))
     if rc != 0:
-        vlib.log(out[-2000:])
-vlib.coq_project()
-rc, out, dt = vlib.sh(["make", "-k", "-j%d" % vlib.NPROC], cwd=vlib.COQ, timeout=3000)
-vlib.log("coq make rc=%s %.0fs" % (rc, dt))
-if rc != 0:
+        vlib.log(out[-1500:])
+targets = []
+for pid in ids:
+    p = os.path.join(vlib.COQ, "theories", "Properties_%s.v" % pid)
+    if os.path.exists(p):
+        targets.append("theories/Properties_%s.vo" % pid)
+    ext = os.path.join(vlib.COQ, "extract", "Extract_%s.v" % pid)
+    if os.path.exists(ext):
+        for mod in re.findall(r"From CV Require (?:Import )?([A-Za-z0-9_. ]+)\.", open(ext).read()):
+            for one in mod.split():
+                targets.append("theories/" + one.replace(".", "/") + ".vo")
+targets = sorted(set(targets))
+ok, out, dt = vlib.coq_make(targets, timeout=3000)
+vlib.log("coq make of %d targets ok=%s %.0fs" % (len(targets), ok, dt))
+if not ok:
     vlib.log(out[-3000:])
-fail = rc != 0
-for ext in sorted(glob.glob(os.path.join(vlib.COQ, "extract", "Extract_*.v"))):
-    pid = os.path.basename(ext)[8:-2]
-    try:
-        vlib.build_model(pid)
-    except Exception as e:
-        vlib.log("model %s: %s" % (pid, e))
-        fail = True
-for h in sorted(glob.glob(os.path.join(vlib.VERIF, "harness", "vh_c*.cpp"))):
-    pid = os.path.basename(h)[3:-4].upper()
-    try:
-        vlib.build_harness(pid)
-    except Exception as e:
-        vlib.log("harness %s: %s" % (pid, e))
-        fail = True
-sys.exit(1 if fail else 0)
+for pid in ids:
+    if os.path.exists(os.path.join(vlib.COQ, "extract", "Extract_%s.v" % pid)):
+        try:
+            vlib.build_model(pid)
+        except Exception as e:
+            vlib.log("model %s: %s" % (pid, str(e)[-800:]))
+    if os.path.exists(os.path.join(vlib.VERIF, "harness", "vh_%s.cpp" % pid.lower())):
+        try:
+            vlib.build_harness(pid)
+        except Exception as e:
+            vlib.log("harness %s: %s" % (pid, str(e)[-800:]))
+sys.exit(0)
